@@ -234,7 +234,7 @@ func VString(v *ast.Value) string { panic("ghost") }
 //@ ensures[node-overlap-rejected] err == nil && a.Name != "Query" && implementsNode(a) ==> forall(j, 0, len(b.Fields), !hasprefix(b.Fields[j].Name, "__") && !idField(b.Fields[j]) ==> forall(i, 0, len(a.Fields), a.Fields[i].Name != b.Fields[j].Name)) @using ovl, some, all, spec @props C05
 //@ ensures[a-kept] err == nil && a.Name != "Query" ==> len(res) >= len(a.Fields) && forall(i, 0, len(a.Fields), res[i].Name == a.Fields[i].Name) @using prefix, ukeep @props C03
 //@ ensures[b-kept] err == nil && a.Name != "Query" ==> len(res) == len(a.Fields) || forall(j, 0, len(b.Fields), !hasprefix(b.Fields[j].Name, "__") ==> exists(m, 0, len(res), res[m].Name == b.Fields[j].Name)) @using b-kept, all, ukeep, own @props C03
-//@ modifies-assumed fresh
+//@ modifies fresh
 //@ loop 0 modifies fresh
 //@ loop 0 invariant[own] base(result) == 0 || freshloop(result)
 //@ loop 0 invariant[copy] a.Name != "Query" ==> len(result) == it && forall(i, 0, it, fresh(result[i]) && copyOf(result[i], a.Fields[i])) @using copy, own
@@ -249,6 +249,7 @@ func VString(v *ast.Value) string { panic("ghost") }
 //@ loop 2 invariant[b-kept] forall(j, 0, it, exists(m, 0, len(result), result[m].Name == mf[j].Name)) @using b-kept, own
 //@ loop 2 invariant[ovl] a.Name != "Query" ==> forall(j, 0, it, forall(i, 0, len(a.Fields), a.Fields[i].Name == mf[j].Name && !idField(mf[j]) ==> has(isOverlappinggMap, j) && isOverlappinggMap[j])) @using ovl, prefix, spec, own, keys
 //@ loop 3 invariant[some] forallT(k, int, seen(k) && isOverlappinggMap[k] ==> isSomeOverlappingg)
+//@ loop 4 invariant[own] base(overlappingFields) == 0 || fresh(overlappingFields)
 //@ loop 2 invariant[checked] a.Name != "Query" ==> forall(j, 0, it, forall(i, 0, len(a.Fields), a.Fields[i].Name == mf[j].Name ==> sameSig(a.Fields[i], mf[j]))) @using checked, prefix, spec, own, unique
 //@ end
 
